@@ -59,7 +59,8 @@ var argFns = []string{"select", "map", "map_values", "filter", "sort_by", "group
 var binOps = []string{"|", ",", "+", "-", "*", "/", "%", "//", "==", "!=", "<", "<=", ">", ">=", "and", "or", "=", "|=", "+=", "-=", "*=", "*+", "*d", "*?", "*n", "*+d"}
 
 var atoms = []string{".", ".a", ".b", ".c", ".x", ".a.b", ".[0]", ".[]", "..", "0", "1", "-1", "2", "3.5", "0x1F", "true", "false", "null",
-	`"a"`, `"b"`, `""`, `"a,b"`, `","`, `"\(.a) x"`, "[]", "{}", "[1,2,3]", `{"a":1}`, `["a","b"]`, `[["a"]]`, "$x", `"(a+)"`, `"2006-01-02"`}
+	`"a"`, `"b"`, `""`, `"a,b"`, `","`, `"\(.a) x"`, "[]", "{}", "[1,2,3]", `{"a":1}`, `["a","b"]`, `[["a"]]`,
+	`[{"a":"b"}]`, `[{"b":"a"}]`, `{"a":"b","b":"a"}`, `[{"a":"a"},{"b":"b","a":"b"}]`, `{"x":{"a":"b"},"y":{"b":"a"}}`, "$x", `"(a+)"`, `"2006-01-02"`}
 
 // Structured builds a random expression tree of the given depth over the full vocabulary.
 func Structured(r *rand.Rand, depth int) string {
